@@ -132,7 +132,8 @@ pub fn comment_words(c: &str) -> Vec<String> {
     let c = c.replace("\r\n", "\n").replace('\r', " ");
     let mut body = String::new();
     if let Some(rest) = c.strip_prefix("//") {
-        body.push_str(rest);
+        // `////` comments: the extra slashes are part of the opener that re-flowing repeats on every line
+        body.push_str(rest.trim_start_matches('/'));
     } else if let Some(rest) = c.strip_prefix("/*") {
         let rest = rest.strip_suffix("*/").unwrap_or(rest);
         for (i, l) in rest.split('\n').enumerate() {
